@@ -137,8 +137,16 @@ def make_cfg(rng, nonzero=None):
 
 
 def make_key(rng, n, kind=None):
-    kind = kind or rng.choice(["host", "host", "bytes", "bytes", "zeroend", "periodic", "same"])
-    if kind == "host":
+    kind = kind or rng.choice(["host", "host", "bytes", "bytes", "zeroend", "periodic", "same", "nearsame", "nearsame"])
+    if kind == "nearsame" and n >= 3:
+        # internally repetitive but primitive keys: one shorter aligned n-gram dominates the padded configuration
+        # (host names such as SRV-000000000001): every shorter key length yields a wrong candidate first
+        c = bytes([rng.choice(b"A0az") if rng.random() < 0.7 else rng.randrange(1, 256)])
+        if rng.random() < 0.5 or n < 8:
+            k = c * (n - 1) + bytes([c[0] ^ rng.randrange(1, 256)])
+        else:
+            k = b"SRV-"[: max(1, min(4, n - 3))] + c * (n - max(1, min(4, n - 3)) - 1) + bytes([c[0] ^ 1])
+    elif kind == "host":
         k = bytes(rng.choice(b"abcdefghijklmnopqrstuvwxyz0123456789-") for _ in range(n))
     elif kind == "zeroend":
         k = C.rbytes(rng, n - 1) + b"\x00"
@@ -253,6 +261,12 @@ def _impl(stream, line):
         data = C.unhx(w[1])
         if stream == "ffx":
             data = xorencode(data, C.unhx(w[4]))
+        elif len(w) > 4:
+            try:
+                with _BufSize(int(w[2])):
+                    BeaconConfig.from_bytes(C.unhx(w[4]))
+            except ValueError:
+                pass
         with _BufSize(int(w[2])):
             bc = BeaconConfig.from_bytes(data)
         if bc.guardrails is None:
@@ -436,9 +450,13 @@ def gen(tier, rng, shard, nshards):
         k += 1
         return (k % nshards) == shard
 
-    def ff(payload, tag, buf=8192):
+    def ff(payload, tag, buf=8192, warm=None):
         if not clean(payload):
             return None
+        if warm is not None and clean(warm):
+            # history: the intact twin is extracted first in the same process (state kept between extractions must not
+            # let the corrupted payload through)
+            return "ff", f"ff {C.hx(payload)} {buf} {tag} {C.hx(warm)}"
         return "ff", f"ff {C.hx(payload)} {buf} {tag}"
 
     # ---- ff: keys of many lengths
@@ -503,6 +521,9 @@ def gen(tier, rng, shard, nshards):
             tag = f"R:{key.hex()}:{len(pre)}" if good_last else "M"
         gc = guard_config(gs, C.rbytes(rng, GSIZE))
         ar = bytearray(protect(cfg, key, gc))
+        intact = pre + bytes(ar) + post if kind in (0, 4) else None
+        if kind == 0:   # the twin with the right checksum
+            intact = pre + protect(cfg, key, guard_config(guard_settings(opts, cks(cfg) + 1, rng), C.rbytes(rng, GSIZE))) + post
         if kind == 4:  # flip configuration bytes (inside the settings / inside the padding)
             for _ in range(rng.choice([1, 1, 2, 5])):
                 p = rng.choice([rng.randrange(0, 64), rng.randrange(0, BSIZE - 2048), rng.randrange(0, BSIZE - 2048)])
@@ -526,7 +547,7 @@ def gen(tier, rng, shard, nshards):
         elif kind == 7:  # beacon area masked with another single-byte key than 0x2e
             ar = bytearray(protect(cfg, key, gc, bkey=bytes([rng.choice([0x2F, 0x69, 0x00, 0xAE])])))
             tag = "U"
-        c = ff(pre + bytes(ar) + post, tag)
+        c = ff(pre + bytes(ar) + post, tag, warm=intact)
         if c:
             yield c
 
